@@ -18,10 +18,10 @@ ASSUMPTIONS = ['remote verbs classified read-only (cd, find, cat <file>, hostnam
 
 def run(ctx):
     F = ctx.F['cli']
-    C19.plan_rules(ctx, F, 'C15.R1')
-    C19.excluded_rules(ctx, F, 'C15.R2')
+    ctx.attempt(C19.plan_rules, ctx, F, 'C15.R1')
+    ctx.attempt(C19.excluded_rules, ctx, F, 'C15.R2')
     ctx.rule('C15.R3', 'glob_match: literal comparison only after every metacharacter test of that pattern character failed', floor=2)
-    C19.glob_rules(ctx, F, 'C15.R3')
+    ctx.attempt(C19.glob_rules, ctx, F, 'C15.R3')
     ctx.rule('C15.R4', 'dry-run: every effectful call in run_local / run_remote / run_bisync is guarded by dry_run == false', floor=8)
     ctx.rule('C15.R5', 'with --dry-run the printed plan is the executed plan; deletes come from plan.delete only', floor=4)
     eff = Effects(F)
@@ -67,7 +67,7 @@ def run(ctx):
                 ctx.check(bool(do) and all(o.path[-1:] == ('delete',) for o in do) and bool(eo) and all(o.path[-1:] == ('excludes',) for o in eo),
                           'C15.R5', '%s:build_plan(opts.excludes, opts.delete)' % key, 'delete set requested only by --delete; excludes passed through',
                           '%s does not pass opts.excludes / opts.delete to build_plan unchanged' % key, term_loc(b, plans[0][0]))
-    delete_sources(ctx, F, 'C15.R5')
+    ctx.attempt(delete_sources, ctx, F, 'C15.R5')
     # bisync dry-run prints the plan it would apply
     b = F.body('bidir::run_bisync')
     fl = flow_of(b)
